@@ -63,6 +63,12 @@ func (h HelperContext) BlockWith(hc hctx.Context) (string, error) {
 	if h.depth >= maxCallDepth {
 		return "", tooDeep()
 	}
+	if exec := h.compiler.exec; exec != nil {
+		defer exec.blocks.Add(-1)
+		if exec.blocks.Add(1) > maxBlocksRunning {
+			return "", fmt.Errorf("more than %d blocks of one execution running at a time", maxBlocksRunning)
+		}
+	}
 
 	// The block is evaluated by an evaluator of its own: a stored block
 	// (contentFor) is rendered again by later executions, possibly by
